@@ -58,11 +58,13 @@ func Harness_C06_schedules() {
 	zzsym.Reach("c06.compared")
 }
 
+var c06MutListDoc = `mutation { d { id best { id } boss { id } } a(x: 1) }`
+
 var c06MutDoc = `mutation { c { id best { id } boss { id } } a(x: 1) b(x: 2) }`
 
 // Harness_C06_mutationSerial: resolver invocation order for a mutation.
 func Harness_C06_mutationSerial() {
-	doc := mustLoad(c06MutDoc)
+	doc := mustLoad([]string{c06MutDoc, c06MutListDoc}[zzsym.Choice("doc", 2)])
 	w := newWorld(zzsym.Param("budget", 1), false)
 	w.gated = true
 	runOp(w, doc, doc.Operations[0], nil)
@@ -76,6 +78,17 @@ func Harness_C06_mutationSerial() {
 		return -1
 	}
 	c, a, b := idx("/Commands.c"), idx("/Commands.a"), idx("/Commands.b")
+	if d := idx("/Commands.d"); d >= 0 {
+		// a root field that is a list of objects: the resolvers under its elements run on goroutines of their own
+		zzsym.Assert(d == 0 && a > d, "root fields start in document order")
+		for i, k := range w.calls {
+			if strings.HasPrefix(k, "d[") {
+				zzsym.Assert(i < a, "the sub-selection of a mutation field completes before the next root field starts")
+			}
+		}
+		zzsym.Reach("c06.serial")
+		return
+	}
 	zzsym.Assert(c == 0, "first root field starts first")
 	zzsym.Assert(a > c && b > a, "root fields start in document order")
 	for i, k := range w.calls {
